@@ -50,15 +50,15 @@ DEFAULTS = {
 # field -> list of (value as given by the user, value expected after resolution)
 BOUNDARY = {
     "family": [("Fam B", None), ("Noto Übung “quoted”", None), ("a,b 'c' \"d\"", None), ("x" * 70, None), ("日本語 emoji", None)],
-    "upem": [(16, None), (1000, None), (2048, None), (16384, None)],
-    "width": [(0, None), (1, None), (999, None), (4096, None)],
-    "ascender": [(0, None), (1, None), (880, None), (2000, None)],
-    "descender": [(0, None), (-1, None), (-120, None), (-1000, None)],
+    "upem": [(1024, None), (16, None), (1000, None), (2048, None), (16384, None)],
+    "width": [(1275, None), (0, None), (1, None), (999, None), (4096, None)],
+    "ascender": [(950, None), (0, None), (1, None), (880, None), (2000, None)],
+    "descender": [(-250, None), (0, None), (-1, None), (-120, None), (-1000, None)],
     "linegap": [(0, None), (1, None), (250, None)],
     "transform": [("translate(10, 20)", [1, 0, 0, 1, 10, 20]), ("matrix(1 0 0 1 40 -30)", [1, 0, 0, 1, 40, -30]),
                   ("scale(0.5)", [0.5, 0, 0, 0.5, 0, 0]), ("matrix(0.123456789 0 0 0.987654321 1.5 -2.25)", [0.123456789, 0, 0, 0.987654321, 1.5, -2.25]),
                   ("translate(0.1, 0.30000000000000004)", [1, 0, 0, 1, 0.1, 0.30000000000000004])],
-    "version_major": [(0, None), (2, None), (255, None)],
+    "version_major": [(1, None), (0, None), (2, None), (255, None)],
     "version_minor": [(0, None), (1, None), (28, None), (280, None)],
     "reuse_tolerance": [(-1.0, None), (0.05, None), (0.1, None), (0.2, None), (0.125, None)],
     "ignore_reuse_error": [(True, None), (False, None)],
@@ -66,7 +66,7 @@ BOUNDARY = {
     "clip_to_viewbox": [(True, None), (False, None)],
     "clipbox_quantization": [(1, None), (7, None), (100, None)],
     "pretty_print": [(True, None), (False, None)],
-    "bitmap_resolution": [(8, None), (20, None), (33, None)],
+    "bitmap_resolution": [(128, None), (8, None), (20, None), (33, None)],
     "use_zopflipng": [(True, None), (False, None)],
     "use_pngquant": [(True, None), (False, None)],
     "pngquant_flags": [("--speed 11", None), ("--speed 10 --quality 40-60", None), ("--speed 11 --posterize 2 --nofs", None)],
@@ -175,7 +175,11 @@ def gen_config_case(seed, idx):
         # an earlier invocation on the same build directory whose FLAGS carried other values: every message of
         # the later invocation must be the later one's, not a leftover
         prev_flags, prev_exp = dict(flag_o), dict(expected)
+        TOML_ONLY = {"family", "upem", "width", "linegap", "version_major", "version_minor", "keep_glyph_names", "clipbox_quantization", "pretty_print", "transform", "ignore_reuse_error"}
+        keep_manifest = bool(set(flag_o) & TOML_ONLY) and r.random() < 0.5  # change only what the manifest does not depend on
         for f in sorted(flag_o):
+            if keep_manifest and f not in TOML_ONLY:
+                continue
             if f in ("color_format", "output_file") or f not in BOUNDARY:
                 continue
             pool = [p_ for p_ in BOUNDARY[f] if p_[0] != flag_o[f]]
@@ -189,6 +193,11 @@ def gen_config_case(seed, idx):
         if prev_exp.get("ascender", 950) - prev_exp.get("descender", -250) > 0:
             ops.append({"op": "invoke", "cwd": ".", "argv": gen.flag_args(prev_flags) + ["config.toml"], "build_dir": "build", "label": "prev", "sched": gen.sched(rs)})
             expected_by_label["prev"] = prev_exp
+            toml_only = {"family", "upem", "width", "linegap", "version_major", "version_minor", "keep_glyph_names", "clipbox_quantization", "pretty_print", "transform", "ignore_reuse_error"}
+            changed = {f for f in flag_o if prev_flags.get(f) != flag_o.get(f)}
+            if changed and changed <= toml_only and (keep_manifest or r.random() < 0.5):
+                # nothing the manifest depends on changed: the user may keep the old build.ninja; the messages must still be new
+                argv = argv + ["--nogen_ninja"]
     ops.append({"op": "invoke", "cwd": ".", "argv": argv, "build_dir": "build", "label": "build", "sched": gen.sched(rs), "final": True})
     cid = "c10-%d-c%d" % (seed, idx)
     job = {"id": cid + ".j0", "root_id": "c10/%d/c%d" % (seed, idx), "hashseed": H(seed, "c10c", idx) % 4294967296,
@@ -253,6 +262,11 @@ def gen_names_case(seed, idx):
                 items.append(("src/" + gen.file_stem(r, cps, False) + ".svg", gen.content(r, True), cps))
                 cps_seen.add(cps)
     ops = [{"op": "write", "path": p, "content": c} for p, c, _ in items]
+    if len(items) > 1 and r.random() < 0.25:
+        # one source is a symbolic link whose own name carries the codepoints; the target is called something else
+        p0, c0, _cps0 = items[0]
+        ops[0] = {"op": "write", "path": "real files/target_%d.svg" % idx, "content": c0}
+        ops.insert(1, {"op": "symlink", "path": p0, "target": os.path.relpath("/real files/target_%d.svg" % idx, os.path.join("/", os.path.dirname(p0)))})
     opts = {"color_format": fmt, "output_file": "Font" + gen.ext_for(fmt)}
     if small:
         opts["bitmap_resolution"] = 20
@@ -359,6 +373,9 @@ def monitors(inv, meta, root_hint=None):
             writes[t["dest"]] = t["cfg"]
         if t["proc"] == "driver" and t["k"] == "config.load":
             driver_loads.append(t)
+    if driver_loads and not writes:
+        out.append({"class": "handoff-mismatch", "detail": {"what": "the driver resolved a configuration and ran the build without writing it for the workers",
+                                                            "step": "driver", "label": inv.get("label")}})
     # where is the build dir?  every config.write dest is inside it
     bdir_abs = os.path.dirname(next(iter(writes))) if writes else None
     for t in trace:
